@@ -1,6 +1,8 @@
 package main
 
 import (
+	"verifharness/vhu"
+
 	"encoding/json"
 	"flag"
 	"fmt"
@@ -90,8 +92,21 @@ func replayCompat(args []string) int {
 					opts.GenCompatMethod = neat.GenomeCompatibilityMethodLinear
 					got["select-linear(b,a) with equal genome ids"] = gb.VerifCompatibility(ga, opts)
 					gb.Id = 2
+					// the distance is a function of the genes and the three coefficients only: every other option
+					// (speciation threshold, population size, mutation rates ...) is outside the formula
+					for _, thr := range []float64{0.25, 1, 3, 1e9} {
+						full := vhu.BaseOptions(150)
+						full.ExcessCoeff, full.DisjointCoeff, full.MutdiffCoeff, full.CompatThreshold = cf[0], cf[1], cf[2], thr
+						tag := fmt.Sprintf(" in complete options with CompatThreshold %g", thr)
+						full.GenCompatMethod = neat.GenomeCompatibilityMethodLinear
+						got["select-linear(a,b)"+tag] = ga.VerifCompatibility(gb, full)
+						got["linear(b,a)"+tag] = gb.VerifCompatLinear(ga, full)
+						full.GenCompatMethod = neat.GenomeCompatibilityMethodFast
+						got["select-fast(b,a)"+tag] = gb.VerifCompatibility(ga, full)
+						got["fast(a,b)"+tag] = ga.VerifCompatFast(gb, full)
+					}
 				})
-				rep.Evaluations += 8
+				rep.Evaluations += 24
 				bad := ""
 				if p != "" {
 					bad = "panic: " + p
